@@ -54,7 +54,15 @@ def make_config(rnd, n, pre_run, layout=None):
     thin = rnd.choice([1, 1, 2])
     P = rnd.choice([4, 6, 10])
     return {"n": n, "kinds": kinds, "seeds": seeds, "d": d, "mus": mus, "temps": temps, "init_mode": init_mode, "inits": inits,
-            "kw_mode": kw_mode, "shared_mass": shared_mass, "steps": steps, "P": P, "thin": thin if P % thin == 0 else 1, "pre_run": pre_run, "controller_seed": rnd.randrange(1 << 30)}
+            "kw_mode": kw_mode, "shared_mass": shared_mass, "kw_overrides": kw_mode in ("shared", "samedict") and rnd.random() < 0.5, "steps": steps, "P": P, "thin": thin if P % thin == 0 else 1, "pre_run": pre_run, "controller_seed": rnd.randrange(1 << 30)}
+
+
+def standalone_kwargs(cfg, i, kind):
+    """what a stand-alone run of chain i is given: the chain's kwargs without the keys the controller fixes (proposals, overwrite_existing_file)"""
+    kw = dict(kwargs_of(cfg, i, kind))
+    kw.pop("proposals", None)
+    kw.pop("overwrite_existing_file", None)
+    return kw
 
 
 def make_shared_mass(cfg):
@@ -73,6 +81,9 @@ def kwargs_of(cfg, i, kind):
         kw = {}
     elif cfg["kw_mode"] in ("shared", "samedict"):
         kw = {"online_thinning": cfg["thin"], "disable_progressbar": True}
+        if cfg.get("kw_overrides"):
+            # keys the controller fixes itself: its own values win, the user's are ignored
+            kw.update({"proposals": cfg["P"] + cfg["thin"] * 2, "overwrite_existing_file": False})
     else:
         kw = {"stepsize": cfg["steps"][i], "disable_progressbar": True}
         if kind == "HMC":
@@ -151,7 +162,7 @@ def job(cfg, tmp):
         try:
             extra = {"mass_matrix": kw["mass_matrix"]} if cfg.get("shared_mass") else {}
             s.sample(fn, p, initial_model=init_of(cfg, i), proposals=cfg["P"], overwrite_existing_file=True,
-                     **{**{"disable_progressbar": True}, **kwargs_of(cfg, i, cfg["kinds"][i]), **extra})
+                     **{**{"disable_progressbar": True}, **standalone_kwargs(cfg, i, cfg["kinds"][i]), **extra})
             reuse.append(read_samples(fn))
         except Exception as e:
             reuse.append(repr(e))
@@ -172,7 +183,7 @@ def reference(cfg, tmp):
             s2 = copy.deepcopy(s)
             fn = os.path.join(tmp, f"ref_{i}.h5")
             s2.sample(fn, p, initial_model=init_of(cfg, i), proposals=cfg["P"], overwrite_existing_file=True,
-                      **{**{"disable_progressbar": True}, **kwargs_of(cfg, i, cfg["kinds"][i]), **extra})
+                      **{**{"disable_progressbar": True}, **standalone_kwargs(cfg, i, cfg["kinds"][i]), **extra})
             out.append(read_samples(fn))
     return out
 
@@ -194,7 +205,7 @@ def run(tier, seed):
             sub = os.path.join(tmp, f"c{ci}")
             os.makedirs(sub)
             status, res = supervised(job, (cfg, sub), timeout=120 if n <= 16 else 300, tmpdir=tmp)
-            stim = {k: cfg[k] for k in ("n", "kinds", "init_mode", "kw_mode", "shared_mass", "P", "thin", "pre_run")}
+            stim = {k: cfg[k] for k in ("n", "kinds", "init_mode", "kw_mode", "shared_mass", "kw_overrides", "P", "thin", "pre_run")}
             st.case(dict(stim, seeds=cfg["seeds"]), nontrivial=(n >= 2 and (cfg["init_mode"] == "list" or cfg["kw_mode"] == "list")),
                     sample=stim if len(st.samples) < 3 else None)
             st.count(f"n={'1' if n == 1 else '2-6' if n <= 6 else '>6'}")
